@@ -13,18 +13,24 @@ if '--checks' in sys.argv:
     checks = sys.argv[sys.argv.index('--checks') + 1].split(',')
 if '--all' in sys.argv:
     checks = ALL
-if sh('git -C /repo status --porcelain').stdout.strip():
-    print('refusing: /repo is not clean'); sys.exit(2)
-res = {'at': time.strftime('%Y-%m-%dT%H:%M:%S'), 'repo_head': sh('git -C /repo rev-parse --short HEAD').stdout.strip(), 'checks': {}}
+repo = '/repo'
+if '--repo' in sys.argv:          # a scratch worktree of /repo: evaluations can run in parallel, /repo is never touched
+    repo = os.path.realpath(sys.argv[sys.argv.index('--repo') + 1])
+cenv = dict(os.environ)
+if repo != '/repo':
+    cenv['VERIF_REPO'] = repo
+if sh('git -C %s status --porcelain --untracked-files=no' % repo).stdout.strip():
+    print('refusing: %s is not clean' % repo); sys.exit(2)
+res = {'at': time.strftime('%Y-%m-%dT%H:%M:%S'), 'repo_head': sh('git -C %s rev-parse --short HEAD' % repo).stdout.strip(), 'checks': {}}
 try:
-    r = sh(['git', '-C', '/repo', 'apply', os.path.join(d, 'patch.diff')])
+    r = sh(['git', '-C', repo, 'apply', os.path.join(d, 'patch.diff')])
     if r.returncode != 0:
         print('patch does not apply', r.stderr[-300:]); sys.exit(2)
-    s = sh(['python3', os.path.join(VERIF, 'tools', 'run_suite.py')])
+    s = sh(['python3', os.path.join(VERIF, 'tools', 'run_suite.py'), repo])
     res['suite_green'] = s.returncode == 0
     for c in checks:
         t0 = time.time()
-        cr = sh([os.path.join(VERIF, 'check'), c, 'quick'], cwd=VERIF)
+        cr = sh([os.path.join(VERIF, 'check'), c, 'quick'], cwd=VERIF, env=cenv)
         vl = [l for l in cr.stdout.split('\n') if l.startswith('VIOLATION')]
         first = ''
         lines = cr.stdout.split('\n')
@@ -34,7 +40,7 @@ try:
                 break
         res['checks'][c] = {'rc': cr.returncode, 'silent': cr.returncode == 0 and not vl, 'wall_s': round(time.time() - t0, 1), 'first': first}
 finally:
-    sh('git -C /repo checkout -- .')
+    sh('git -C %s checkout -- .' % repo)
 out = os.path.join(d, 'result.json')
 hist = json.load(open(out)) if os.path.exists(out) else []
 hist.append(res)
